@@ -8,6 +8,12 @@ Part A  mixture graph (call forms).  A state is a mixture expression
         Every event runs the real call once; the oracle is mc.ref.mix.mix on the reference materials
         of the components: per-species atom counts up to one common factor, the density, the
         vanishing of zero quantities, the documented error (volume of a material without density).
+        The live component objects are built once per shard and serve every call of the shard (the same
+        object in many calls, and several times in one call); they are observed (str, atoms, hill, mass ...)
+        before their first use, and must come back unaltered from every call.
+Part C  reuse histories.  Two live objects go through every sequence (length <= 3 / 4) of judged calls,
+        calls with keyword overrides, and in-place updates by the caller (density, natural_density, name,
+        `a += b`); every judged call must match the reference for the CURRENT state of the objects.
 Part B  string forms.  Every derivation of a small AST of the documented mixture grammar (all
         percentage spellings, bare % on later parts, 1..3 parts + remainder, all 13 units in every
         pairing inside a family, nested parts with/without density tag, repeated groups, spacing
@@ -24,7 +30,16 @@ from ..ref import mix as R
 META = dict(
     level="model_checking", engine="E1",
     technique="bounded-exhaustive exploration of the mixture graph and of the mixture grammar's derivations",
-    rule=("A: every mix_by_weight / mix_by_volume call with k = 1..3 components drawn (ordered, with repetition) "
+    rule=("A: zero quantities of components WITHOUT density are ordinary members (they vanish: no error by volume, "
+          "and the density is judged from the remaining parts); the Formula objects passed in are shared by all events "
+          "of a shard, observed before use, and compared after every call (stored attributes; after each component "
+          "tuple also the readable values).  C: all event sequences over {10 judged call forms, 2 keyword calls, 4-5 "
+          "in-place updates} on two live objects, ending in a call; cause = the earlier events that are individually "
+          "necessary.  B also: one part X directly after every percent spelling / bare % / unit, in first, later and "
+          "last position, for X = every element whose symbol begins with a letter that begins a percent word or unit "
+          "(W V Mo Mg Mn K Ge U N Li Cm ...; forced collisions), compounds led by them, and parts with a leading "
+          "count (scaled formula unit).  "
+          "A: every mix_by_weight / mix_by_volume call with k = 1..3 components drawn (ordered, with repetition) "
           "from the component alphabet of its level and every quantity tuple over {0,1e-6,0.5,1,2,3,1e6}; a level-d "
           "event has at least one component that is a depth-(d-1) mixture taken from a fixed representative list "
           "(R1: 10 depth-1, R2: 6 depth-2 mixtures; by weight / by volume, with and without density, ratios 1e12, "
@@ -41,24 +56,40 @@ META = dict(
                "single x 6 quantities x 5 compounds, all 81 + 16 ordered unit pairs x 6 quantity pairs x 2 component "
                "pairs (+ missing-density pairs, + 8 spacings), all 729 + 64 unit triples; nested parts: 15 outer forms x "
                "7 inner mixtures x {no tag, @2.5, @1.5n} x 5 spacings (nesting depth 2); repeated groups: count "
-               "{none,2,3} x {alone, first, later, two groups} x 19 + 9 inner mixtures (every unit), group in group"),
+               "{none,2,3} x {alone, first, later, two groups} x 19 + 9 inner mixtures (every unit), group in group; "
+               "collisions: 53 parts (40 elements by the first-letter rule, 13 compounds) x (16 first spellings + 18 "
+               "later spellings incl. bare % + 6 other positions + 13 units x 3 positions) x 2 number-unit spacings; "
+               "5 scaled parts in the same forms; zero amounts of the density-less part in every unit pair.  "
+               "C: histories of length <= 3 over 5 object pairs (18 012 histories)"),
         thorough=("A: depth 1: k<=3 over all 14 bases; depth 2: k<=2 full, k=3 over all 24 components with 5 quantities "
                   "and over the quick alphabet with 7; depth 3: k<=3 over 4 bases + 3 of R1 + R2; string arguments k<=2 full, k=3 over 8 bases with 5 quantities.  "
                   "B: as quick, plus: every later-part spelling independently; all 11^3 percentage tuples; all 48 "
                   "quantity pairs for every unit pair; 2 quantity triples per unit triple; nesting depth 3 (720 "
-                  "derivations); group in group in group")),
+                  "derivations); group in group in group; collisions with every element of the table (131 parts).  "
+                  "C: histories of length <= 4 (302 988 histories)")),
     assumptions=[
         "atomic masses and element densities are read from the library (their correctness is C06)",
         "compound parts of a string and base components are built with formula(text) (compound grammar: C01/C12)",
         "density tags on nested mixtures are applied to the call route with the density / natural_density setters (C12)",
         "percentage spellings other than wt% / vol% and spelled-out later parts are those of the implemented grammar "
         "(the rst documents wt%, vol% and the bare %)",
-        "excluded as ambiguous: a zero quantity of a material WITHOUT density given by volume/length (vanishes or "
-        "error?); explicit percentages that sum to exactly 100 (the error text says 'less than 100%'); quantity "
-        "mixtures whose amounts are all zero; the density of an all-zero (empty) mixture; the density of a by-weight "
-        "call mixture that has a zero quantity of a material without density; a parenthesised mixture as a whole "
-        "formula (not in the documented grammar); keyword arguments density/natural_density/name/table; negative "
-        "quantities; missing spaces between unit and part; fractional group counts",
+        "zero quantities vanish unconditionally (property text): a zero quantity of a material without density is "
+        "judged like any other in mix_by_weight / mix_by_volume calls, in wt% / vol% strings, in mass units and in "
+        "layer thicknesses",
+        "excluded as left open by the text: a zero amount in a VOLUME UNIT ('0.0mL SiO2') of a material without "
+        "density - the string is translated to grams with the part's density before anything is mixed, so the "
+        "quantity of 'the corresponding call' (0 x unknown) is not defined and the documented missing-density error "
+        "is as defensible as vanishing; explicit percentages that sum to exactly 100 (the grammar text says 'the "
+        "final portion adding to 100%', the library's own error text 'must sum to less than 100%': rejecting them "
+        "would be a legitimate reading); quantity mixtures whose amounts are all zero and the density of an all-zero "
+        "(empty) mixture (0/0); a parenthesised mixture as a whole formula (not in the documented grammar); the "
+        "RESULT of a call with keyword arguments density/natural_density/name/table (such calls occur in the "
+        "histories, only their side effects are judged); in-place `density = None` on a single-element Formula "
+        "(formula(f) gives it the element density again); negative quantities; missing spaces between unit and "
+        "part; fractional group counts",
+        "argument objects are compared by their public instance attributes (structure by identity, density, name, "
+        "total_mass, thickness ...) and by the values a caller can read (str, atoms, hill, mass, mass_fraction, "
+        "charge, density, natural_density); attributes with a leading underscore (possible caches) are not looked at",
         "error cases accept any exception class",
         "string forms are compared with the calls they abbreviate, so they are explored only when part A is silent",
     ],
@@ -450,7 +481,7 @@ class Graph(object):
                 names.append("c%d" % i)
                 lines.append("c%d = %s" % (i, expr_code(c)))
         objs = ", ".join(sorted(set(names)))
-        look = ("lambda: [(str(c), c.structure, c.density, c.name, c.mass, sorted(k for k in vars(c) "
+        look = ("lambda: [(str(c), c.mass, sorted((k, v) for k, v in vars(c).items() "
                 "if not k.startswith('_'))) for c in (%s,)]" % objs)
         lines += ["look = " + look, "before = look()",
                   "try: %s(%s)" % (fn, ", ".join("%s, %r" % (n, q) for n, (c, q) in zip(names, expr[1]))),
@@ -643,7 +674,8 @@ class History(object):
             for n in sorted(live):
                 w = cheap_diff(before[n][0], cheap_state(live[n])) or observe_diff(before[n][1], observe(live[n]))
                 if w:
-                    return (i, kind, "argument-altered:" + w, "the objects passed to the call are unaltered",
+                    return (i, kind + ("-kwcall" if ev[0] == "kwcall" else ""), "argument-altered:" + w,
+                            "the objects passed to the call are unaltered",
                             "%s of object %s differs after the call" % (w, n))
             if ev[0] == "kwcall":
                 continue
